@@ -423,7 +423,8 @@ class Actor:
         rec = self.pending or self.tape[self.pos]
         if rec[0] in ('O', 'E'):
             pipe = self.out if rec[0] == 'O' else self.err
-            if pipe.space() <= 0:
+            if pipe.space() <= 0 and not pipe.closed_w:
+                # (a pipe that lost its reader does not block its writer: the data is lost)
                 self.backpressure += 1
                 return False
         return True
